@@ -211,6 +211,9 @@ def parseCase : P Case := do
   let parSet ← listOf bytes
   -- the authority section of the scripted upstream answer
   let uns ← listOf rr
+  -- the built-in DHCP server: enabled?, leases (host name, address)
+  let dhcpOn ← bool
+  let leases ← listOf (do let n ← bytes; let ip ← ipOpt; let ip ← ofOpt ip; pure (n, ip))
   let mode ← (do let s ← next; ofOpt (parseMode s))
   let bip4 ← ipOpt
   let bip6 ← ipOpt
@@ -250,7 +253,7 @@ def parseCase : P Case := do
               filtering := gfilt, aaaaDisabled := aaaaDis, schedNow := gSched, services := gSvc,
               client := client, clientIP := cip,
               rewrites := C06.prepare rws, hosts := hosts, sbEnabled := sbEnabled, parentalEnabled := parEnabled,
-              sbHost := sbHost, parentalHost := parHost },
+              sbHost := sbHost, parentalHost := parHost, dhcpEnabled := dhcpOn, dhcpLeases := leases },
     custom := custom, blockLists := bl, allowLists := al,
     q := { name := qname, qtype := qtype }, up := { rcode := urcode, answer := uans, ns := uns },
     oracles := oracles, svcOracle := svcO, arpa := arpa, sbSet := sbSet, parentalSet := parSet }
@@ -360,6 +363,16 @@ def classOf (c : Conf) : Outcome → String
       else if !protectionOn c then "forward-protection-off"
       else if !filteringOn c then "forward-filtering-off"
       else "forward-nomatch"
+
+/-- class with the DHCP-host stage made visible -/
+def classOfQ (c : Conf) (q : Query) (o : Outcome) : String :=
+  match dhcpHost c q with
+  | none => classOf c o
+  | some h =>
+    if (c.dhcpLeases.find? (fun l => l.1 == h)).isSome then "dhcp-lease"
+    else match o with
+      | .done _ _ none => "dhcp-nolease-nxdomain"
+      | _ => "dhcp-nolease:" ++ classOf c o
 
 /-! ## engines -/
 
